@@ -195,15 +195,21 @@ def run(ck):
     rets = [e for e in rr.events("return")]
     ck.require(rets, "no return in removeRoute")
     def deep_refs(fn_, e, depth=0):
-        """references of a returned expression, looking through the local lambdas / helpers of the same class it calls"""
+        """references of a returned expression, looking through what it calls *on this node*: local lambdas (they capture this) and
+        other member functions of the node invoked on `this` — never a call on a child (that is the child's emptiness, not this node's)"""
         refs = set(e.get("refs") or [])
         if depth < 3:
-            for r in list(refs):
-                if r.startswith("c:"):
-                    for g in prog.by_base.get(strip_tmpl(r[2:]), []) + [l for l in prog.lambdas_in(prog.owner(fn_)) if l.name == r[2:] or l.id.split("#in:")[0] == r[2:]]:
-                        if g.blocks and (g.is_lambda or g.cls == fn_.cls):
-                            for re_ in g.events("return"):
-                                refs |= deep_refs(g, re_, depth + 1)
+            for c_ in fn_.events("call"):
+                cal = c_.get("callee") or ""
+                if ("c:" + cal) not in refs or (c_.get("t") or "") not in (e.get("t") or ""):
+                    continue
+                on_this = cal.startswith("lambda@") or ((c_.get("recv") or {}).get("t") in ("this", None) and not (c_.get("recv") or {}).get("f"))
+                if not on_this:
+                    continue
+                for g in prog.resolve_call(c_):
+                    if g.blocks and g.id != fn_.id and g.id != rr.id and (g.is_lambda or g.cls == rr.cls):
+                        for re_ in g.events("return"):
+                            refs |= deep_refs(g, re_, depth + 1)
         return refs
     for i, e in enumerate(rets):
         refs = deep_refs(rr, e)
